@@ -53,6 +53,18 @@ struct Files {
     formatted: Vec<String>,
     /// stale `.bk` / `.tmp` siblings left by an earlier run
     stale: bool,
+    /// only the first file is named on the command line; it declares the others as modules
+    tree: bool,
+    /// further spellings of the case's paths that rustfmt may use (`up/../b.rs`)
+    alt_spellings: Vec<String>,
+    /// arguments before / after `--backup`
+    args_before: Vec<String>,
+    args_after: Vec<String>,
+}
+
+/// The name of the `.bk` / `.tmp` sibling: the last extension is replaced.
+fn stem(n: &str) -> &str {
+    n.rsplit_once('.').map(|x| x.0).unwrap_or(n)
 }
 
 const STALE_BK: &str = "// stale backup from an earlier run\n";
@@ -64,10 +76,14 @@ fn setup(dir: &Path, f: &Files) {
     for (n, c) in f.names.iter().zip(f.orig.iter()) {
         std::fs::write(dir.join(n), c).unwrap();
         if f.stale {
-            let stem = n.trim_end_matches(".rs");
+            let stem = stem(n);
             std::fs::write(dir.join(format!("{stem}.bk")), STALE_BK).unwrap();
             std::fs::write(dir.join(format!("{stem}.tmp")), STALE_TMP).unwrap();
         }
+    }
+    if !f.alt_spellings.is_empty() {
+        // `up/../b.rs` only resolves when `up` exists
+        std::fs::create_dir_all(dir.join("up")).unwrap();
     }
 }
 
@@ -75,7 +91,7 @@ fn setup(dir: &Path, f: &Files) {
 fn check_state(dir: &Path, f: &Files, when: &str) -> Result<(), (String, String)> {
     let snap = snapshot(dir);
     for ((n, orig), fmt) in f.names.iter().zip(f.orig.iter()).zip(f.formatted.iter()) {
-        let stem = n.trim_end_matches(".rs");
+        let stem = stem(n);
         let file = snap.get(n);
         let bk = snap.get(&format!("{stem}.bk"));
         let original_somewhere = file.map(|b| b == orig.as_bytes()).unwrap_or(false) || bk.map(|b| b == orig.as_bytes()).unwrap_or(false);
@@ -102,8 +118,8 @@ fn run_traced(r: &RunCtx, dir: &Path, f: &Files, inject: Option<String>, backup:
         Some(p) => cmd.arg(p),
         None => cmd.arg("/dev/null"),
     };
-    for n in &f.names {
-        let stem = n.trim_end_matches(".rs");
+    for n in f.names.iter().chain(f.alt_spellings.iter()) {
+        let stem = stem(n);
         for p in [n.clone(), format!("{stem}.tmp"), format!("{stem}.bk")] {
             cmd.arg("-P").arg(dir.join(p));
         }
@@ -118,10 +134,12 @@ fn run_traced(r: &RunCtx, dir: &Path, f: &Files, inject: Option<String>, backup:
         }
     }
     cmd.arg(r.bin_dir.join("rustfmt"));
+    cmd.args(&f.args_before);
     if backup {
         cmd.arg("--backup");
     }
-    for n in &f.names {
+    cmd.args(&f.args_after);
+    for n in f.names.iter().take(if f.tree { 1 } else { f.names.len() }) {
         cmd.arg(dir.join(n));
     }
     cmd.env("RUSTC_ICE", "0").stdin(Stdio::null()).stdout(Stdio::null()).stderr(Stdio::null());
@@ -155,22 +173,66 @@ impl Property for C20 {
         }
     }
     fn rule(&self) -> &'static str {
-        "generated sets of 1..3 source files (unformatted, already formatted, comment-only; the rewritten file first/middle/last; in one case of four with stale .bk / .tmp siblings from an earlier run), run by the real binary with --backup under strace; for every k = 1.. until the run completes untouched, the run is repeated on a fresh copy (i) killed with SIGKILL on entry to its k-th file-system syscall touching F / F.tmp / F.bk and (ii) with exactly that syscall failing with EIO; oracle after each: F or F.bk holds the complete original, F (if present) is exactly the original or exactly the formatted text, in (ii) rustfmt exits with status 1; after the clean run F = formatted, F.bk = original, unchanged files have no .bk; each injected run is one evaluation; non-trivial = a crash point strictly after the first and before the last file-system effect of a rewrite; distinct by (case, k, fault kind)"
+        "generated sets of 1..3 source files (unformatted, already formatted, comment-only; the rewritten file first/middle/last; in one case of four with stale .bk / .tmp siblings from an earlier run; either all named on the command line or as out-of-line modules of the first file, one of them optionally mounted a second time through `up/../b.rs`, or next to a module file with the same stem, b.inc, which is the known class KF-C20-1), run by the real binary with --backup, alone or together with -l / --files-with-diff / --emit files / --emit=files / -v / --config (before or after --backup), under strace; for every k = 1.. until the run completes untouched, the run is repeated on a fresh copy (i) killed with SIGKILL on entry to its k-th file-system syscall touching F / F.tmp / F.bk and (ii) with exactly that syscall failing with EIO; oracle after each: F or F.bk holds the complete original, F (if present) is exactly the original or exactly the formatted text, in (ii) rustfmt exits with status 1; after the clean run F = formatted, F.bk = original, unchanged files have no .bk; each injected run is one evaluation; non-trivial = a crash point strictly after the first and before the last file-system effect of a rewrite; distinct by (case, k, fault kind)"
     }
     fn assumptions(&self) -> Vec<&'static str> {
         vec!["crash = the process disappears on entry to a syscall (SIGKILL); the kernel's own atomicity of rename(2) and the durability of completed writes are trusted", "strace -P selects the syscalls that touch the case's files by path or by descriptor"]
     }
     fn generate(&self, c: &mut Choices<'_>, _g: &GenCtx) -> Value {
         let n = 1 + c.below(3);
-        let mut files = vec![];
+        let mut files: Vec<(String, String)> = vec![];
         for i in 0..n {
             let body = *c.pick(BODIES);
-            files.push(json!({"name": format!("{}.rs", ["a", "b", "c"][i]), "content": body}));
+            files.push((format!("{}.rs", ["a", "b", "c"][i]), body.to_string()));
         }
-        json!({"files": files, "stale": c.chance(1, 4)})
+        let stale = c.chance(1, 4);
+        // flat: every file is named on the command line; tree: a.rs declares the others as
+        // modules and is the only argument; dotdot: b.rs is mounted a second time through
+        // `up/../b.rs`; samestem: b.rs and b.inc are both modules of a.rs
+        let shape = ["flat", "tree", "dotdot", "samestem"][c.weighted(&[6, 3, 1, 1])];
+        if shape != "flat" {
+            if files.len() == 1 {
+                files.push(("b.rs".into(), (*c.pick(BODIES)).to_string()));
+            }
+            let mut decls = String::new();
+            for (name, _) in files.iter().skip(1) {
+                decls.push_str(&format!("mod {};\n", stem(name)));
+            }
+            if shape == "dotdot" {
+                decls.push_str("#[path = \"up/../b.rs\"]\nmod b_again;\n");
+            }
+            if shape == "samestem" {
+                decls.push_str("#[path = \"b.inc\"]\nmod b_inc;\n");
+                files.push(("b.inc".into(), (*c.pick(&BODIES[..3])).to_string()));
+            }
+            files[0].1.push_str(&decls);
+        }
+        let extra: &[&str] = match c.weighted(&[8, 2, 1, 2, 2, 1, 1]) {
+            0 => &[],
+            1 => &["-l"],
+            2 => &["--files-with-diff"],
+            3 => &["--emit", "files"],
+            4 => &["--emit=files"],
+            5 => &["-v"],
+            _ => &["--config", "max_width=100"],
+        };
+        let files: Vec<Value> = files.into_iter().map(|(n, b)| json!({"name": n, "content": b})).collect();
+        json!({"files": files, "stale": stale, "shape": shape, "extra": extra, "extra_after": c.flip()})
     }
     fn run(&self, case: &Value, r: &RunCtx) -> Outcome {
-        let mut f = Files { names: vec![], orig: vec![], formatted: vec![], stale: case["stale"].as_bool().unwrap_or(false) };
+        let shape = case["shape"].as_str().unwrap_or("flat").to_owned();
+        let extra: Vec<String> = case["extra"].as_array().into_iter().flatten().filter_map(|x| x.as_str().map(|s| s.to_owned())).collect();
+        let after = case["extra_after"].as_bool().unwrap_or(false);
+        let mut f = Files {
+            names: vec![],
+            orig: vec![],
+            formatted: vec![],
+            stale: case["stale"].as_bool().unwrap_or(false),
+            tree: shape != "flat",
+            alt_spellings: if shape == "dotdot" { vec!["up/../b.rs".into()] } else { vec![] },
+            args_before: if after { vec![] } else { extra.clone() },
+            args_after: if after { extra.clone() } else { vec![] },
+        };
         for x in case["files"].as_array().into_iter().flatten() {
             let content = x["content"].as_str().unwrap_or("").to_owned();
             let fmt = format_text(&content, &vec![]);
@@ -185,6 +247,15 @@ impl Property for C20 {
         let mut o = Outcome::pass();
         let rewritten: Vec<usize> = (0..f.names.len()).filter(|i| f.orig[*i] != f.formatted[*i]).collect();
         o.labels.push(format!("files:{}:rewritten:{}", f.names.len(), rewritten.len()));
+        o.labels.push(format!("shape:{shape}"));
+        o.labels.push(format!("extra:{}", if extra.is_empty() { "none".to_string() } else { extra.join(" ") }));
+        // known class (KF-C20-1): the names of the .bk / .tmp siblings replace the extension, so
+        // two rewritten files with the same stem (b.rs, b.inc) share one backup
+        let same_stem = rewritten.iter().any(|i| rewritten.iter().any(|j| i != j && stem(&f.names[*i]) == stem(&f.names[*j])));
+        if same_stem && case["judge_known"].as_bool() != Some(true) {
+            o.excluded.push("known-class:same-stem-files-share-backup".into());
+            return o;
+        }
         // clean run, traced: which file-system syscalls touch the case's files, and how often
         setup(&dir, &f);
         let trace_file = r.tmp.join(format!("c20-{}.trace", r.case_no));
@@ -208,15 +279,19 @@ impl Property for C20 {
         let _ = std::fs::remove_file(&trace_file);
         let snap = snapshot(&dir);
         for i in 0..f.names.len() {
-            let stem = f.names[i].trim_end_matches(".rs");
+            let stem = stem(&f.names[i]);
             let bk = snap.get(&format!("{stem}.bk"));
             if snap.get(&f.names[i]).map(|b| b.as_slice()) != Some(f.formatted[i].as_bytes()) {
                 return Outcome::fail("clean-run-content", format!("after a successful run {} does not hold the formatted text", f.names[i])).nontrivial(true);
             }
             if rewritten.contains(&i) {
                 if bk.map(|b| b.as_slice()) != Some(f.orig[i].as_bytes()) {
-                    return Outcome::fail("clean-run-backup", format!("after a successful run {stem}.bk does not hold the original")).nontrivial(true);
+                    let class = if same_stem { "clean-run-backup/same-stem" } else { "clean-run-backup" };
+                    return Outcome::fail(class, format!("after a successful run of rustfmt {:?} --backup {:?} ({shape}) {stem}.bk does not hold the original of {}", f.args_before, f.args_after, f.names[i])).nontrivial(true);
                 }
+            } else if rewritten.iter().any(|j| self::stem(&f.names[*j]) == stem) {
+                // the sibling belongs to a rewritten file with the same stem
+                continue;
             } else if f.stale {
                 // an unchanged file: the stale sibling is none of this run's business
                 if bk.map(|b| b.as_slice()) != Some(STALE_BK.as_bytes()) {
